@@ -120,3 +120,39 @@ func vpH_C02_T_churn() {
 	_ = stopped
 	_ = e.Stop()
 }
+
+// vpH_C02_T_restart: a leader is stopped (plain Stop, the record stays until it expires) and started again
+// after a symbolic delay in [0, 3.5H]; whenever it reports leadership again the claim must be backed by a
+// live record carrying its current token, and the record must not lapse under a standing claim.
+func vpH_C02_T_restart() {
+	H := time.Second
+	vpSetOpt("rand-fixed", 1)
+	st := vpNewStore("g", 3*H)
+	kv := vpHandle(st, "a")
+	cfg := vpBaseConfig("a", H, 3*H)
+	cfg.ValidationInterval = time.Hour
+	mt := &vpMetrics{}
+	cfg.Metrics = mt
+	e := vpMustNew(&vpProvider{kv}, cfg)
+	mt.onFlag = func(v float64) {
+		if v == 1 {
+			vpAssert("C02.claim-backed", vpClaimBacked(e, st, "a"))
+		}
+	}
+	st.onExpire = func(owner string) {
+		vpAssert("C02.claim-backed:lapsed-under-claim", !(owner == "a" && e.IsLeader()))
+	}
+	cb := &vpCallbacks{}
+	cb.install(e)
+	_ = e.Start(vpRootCtx())
+	time.Sleep(H + H/2)
+	_ = e.Stop()
+	vpDelay("restart-after", 0, 3*H+H/2)
+	_ = e.Start(vpRootCtx())
+	time.Sleep(2*H + H/2)
+	vpQuiesce()
+	_ = st.live()
+	vpCover("C02.restart")
+	vpAssert("C02.claim-backed", vpClaimBacked(e, st, "a"))
+	_ = e.Stop()
+}
